@@ -2,7 +2,7 @@
 import desper
 
 # bits of the "ev" shape of a class
-EV_ADD, EV_REMOVE, EV_RENAMED, EV_PROBE = 1, 2, 4, 8
+EV_ADD, EV_REMOVE, EV_RENAMED, EV_PROBE, EV_FALSY = 1, 2, 4, 8, 16
 
 
 class RecBase:
@@ -11,6 +11,11 @@ class RecBase:
     Callbacks append (kind, receiver, args) to the log of the run that created the instance."""
     _log = None
     ix = -1
+    _falsy = False
+
+    def __bool__(self):
+        # EV_FALSY classes produce falsy instances (like an empty container-style component)
+        return not self._falsy
 
     def _rec(self, kind, args):
         self._log.append((kind, self, args))
@@ -60,6 +65,8 @@ def build_dag(spec, root=RecBase, prefix='K', decorate=True, namespace=None):
                 break
             except TypeError:
                 keep = keep[:-1]
+        if c.get('ev', 0) & EV_FALSY:
+            cls._falsy = True
         if decorate:
             ev = c.get('ev', 0)
             names, maps = [], {}
